@@ -340,9 +340,10 @@ def _neat(p):
 # only makes exhausted spaces expensive).
 ATTEMPTS = 12
 
+# `few` = run on one plain space and one with custom decision points only.
 Config = collections.namedtuple(
-    'Config', 'name family make params determined nofloat feedback',
-    defaults=(False,))
+    'Config', 'name family make params determined nofloat feedback few',
+    defaults=(False, False))
 
 CONFIGS = [
     Config('Sweeping', 'Sweeping', lambda p: G.Sweeping(), _p_none, True, True),
@@ -391,7 +392,7 @@ CONFIGS = [
     Config('custom[counters+feedback]', 'custom[counters+feedback]',
            lambda p: Counting(), _p_none, True, True, True),
     Config('custom[dna_generator]', 'custom[dna_generator]',
-           lambda p: drawn(), _p_none, False, False),
+           lambda p: drawn(), _p_none, False, False, False, True),
     Config('Deduping(puppet)', 'Deduping(puppet)',
            lambda p: G.Deduping(Puppet()), _p_none, False, False),
     Config('Deduping(puppet,hash_fn,max_duplicates=2)',
@@ -592,6 +593,14 @@ def evolution_of(algo):
   return None
 
 
+def recover_owner(algo):
+  if isinstance(algo, G.Deduping):
+    return 'Deduping'
+  if isinstance(algo, evo.Evolution):
+    return 'Evolution'
+  return 'DNAGenerator'
+
+
 def fill_size(algo):
   """Number of fed-back proposals that complete the initial population of
   the Evolution in `algo` (its public `population_init` member), or None."""
@@ -714,8 +723,10 @@ def report(ctx, cfg, params, live, diffs, form, base_diffs, delivery=None):
             pieces = {(c, m) for c, m, _, _ in base_diffs(cuts)}
           piecewise = (clause, mech) in pieces
         if piecewise:
-          # The outermost generator is the one the pieces are handed to.
-          mech = top + PIECEWISE_SUFFIX
+          # The recover() the pieces are handed to: the one of the outermost
+          # generator (Deduping's, Evolution's, or the default one that
+          # Sweeping, Random and user-defined generators share).
+          mech = recover_owner(live.algo) + '.recover' + PIECEWISE_SUFFIX
           if 'cut-inside-population-fill' in classes:
             mech += '+cut-inside-population-fill'
           detail += (f' [history handed over in {len(cuts) + 1} recover() calls, cut at '
@@ -934,7 +945,7 @@ def check_crash_point(ctx, cfg, params, spec, live, path, destructive, m):
 
   def base_diffs(at):
     diffs = []
-    x = recovered_instance(ctx, cfg, params, spec, persist(h), LIST_FORM, diffs, at)
+    x = recovered_instance(ctx, cfg, params, spec, h, LIST_FORM, diffs, at)
     if x is not None:
       examine(x, diffs, False)
     return diffs
@@ -996,7 +1007,7 @@ def case_table(ctx):
   for ci, cfg in enumerate(CONFIGS):
     admitted = [si for si, sp in enumerate(spaces) if admits(cfg, sp)]
     chosen = []
-    for _ in range(min(per, len(admitted))):
+    for _ in range(min(1 if cfg.few else per, len(admitted))):
       # Rotate through all spaces over the configurations.
       while True:
         si = turn % len(spaces)
@@ -1009,6 +1020,8 @@ def case_table(ctx):
     # configurations, `per_custom` for the others.
     admitted = [si for si, sp in enumerate(customs) if admits(cfg, sp)]
     want = min(per_custom_sweep if is_sweep(cfg) else per_custom, len(admitted))
+    if cfg.few:
+      want = min(want, 1)
     cchosen = []
     while len(cchosen) < want:
       si = cturn % len(customs)
@@ -1137,7 +1150,7 @@ def run_case(ctx, i):
 
         def base_diffs(cuts, h=h, continuation=continuation):
           diffs = []
-          x = recovered_instance(ctx, cfg, params, spec, persist(h), LIST_FORM,
+          x = recovered_instance(ctx, cfg, params, spec, h, LIST_FORM,
                                  diffs, cuts)
           return diffs if x is None else continuation(x)
 
@@ -1183,7 +1196,7 @@ def run_case(ctx, i):
 
         def base_phase(cuts, h=h, phase=phase):
           diffs = []
-          x = recovered_instance(ctx, cfg, params, spec, persist(h), LIST_FORM,
+          x = recovered_instance(ctx, cfg, params, spec, h, LIST_FORM,
                                  diffs, cuts)
           return diffs if x is None else phase(x)
 
